@@ -136,6 +136,29 @@ class Check:
         base = ex.schedule(edges, 'declaration', random.Random(0))
         sim_steps = base.steps
         if not base.ok:
+            # declaration order is itself a valid schedule: if the most forgiving order builds, an edge is missing
+            X.restore_tree(pristine, bd)
+            alt = ex.schedule(edges, 'producers-first', random.Random(0))
+            sim_steps += alt.steps
+            if alt.ok:
+                fe = next((e for e in edges if e.idx == base.failed_edge), None)
+                return R.violation('schedule-fails', f'schedule `declaration` (build statements in the order they are written) fails although the order '
+                                   f'generators, compiles, links builds: {base.detail[-1200:]}', f'schedule-fails:{fe.rule if fe else "?"}:{self.out_kind(fe)}',
+                                   faults={'schedule-declaration': 1, 'schedule-producers-first': 1}, probes=probes, steps=sim_steps,
+                                   trace={'order': base.order})
+            # ... or the producer of what the failing step needs is not even among the edges the default target reaches
+            X.restore_tree(pristine, bd)
+            every = m.wanted_edges([o for e in m.edges if ex.runnable(e) for o in e.outs if not o.startswith(('meson-internal__', 'meson-'))])
+            alt = ex.schedule(every, 'producers-first', random.Random(0)) if len(every) > len(edges) else alt
+            sim_steps += alt.steps
+            if alt.ok:
+                fe = next((e for e in edges if e.idx == base.failed_edge), None)
+                missing = self.guess_missing(base.detail, m, fe) if fe is not None else None
+                return R.violation('missing-dependency', f'the default target does not build in the order the statements are written, but everything builds once every '
+                                   f'statement of the manifest is run generators first: {base.detail[-1000:]}'
+                                   + (f' -- it reads {missing}, whose producer is not an ancestor of the step' if missing else ''),
+                                   f'missing-dependency:{fe.rule if fe else "?"}:{self.out_kind(fe)}',
+                                   faults={'schedule-declaration': 1, 'schedule-producers-first': 1}, probes=probes, steps=sim_steps)
             add(probes, 'baseline-build-fails')
             return R.ok(nontrivial=False, probes=probes, steps=sim_steps, summary={'skipped': 'baseline schedule does not build', 'why': base.detail[-600:]})
         full = os.path.join(root, 'full')
